@@ -3091,9 +3091,13 @@ PPL::Grid::wrap_assign(const Variables_Set& vars,
         // congruence for `x'.
         add_congruence((x %= 0) / 1);
       }
-      if (o == OVERFLOW_WRAPS && f_n != wrap_frequency) {
+      if (o == OVERFLOW_WRAPS && (f_n != wrap_frequency || v_d != 1)) {
         // We know that `x' is not a constant, so, if overflow wraps,
         // `x' may wrap to a value modulo the `wrap_frequency'.
+        // (This also covers the frequency `wrap_frequency' when the
+        // value `v_n / v_d' is not one of the integral values of `x':
+        // wrapping moves `x' alone, which on a relational grid is not
+        // a translation of the grid into itself.)
         add_grid_generator(parameter(wrap_frequency * x));
       }
       else if (v_d == 1) {
@@ -3115,9 +3119,9 @@ PPL::Grid::wrap_assign(const Variables_Set& vars,
         // possible value for `x' in the range of the bounded integer type,
         // so the grid is unchanged.
       }
-      // If `v_n / v_d' is not one of the integral values of `x', the grid
-      // (with the integrality congruence added above) is unchanged: if
-      // overflow wraps, those values are already spaced by `wrap_frequency'.
+      // If `v_n / v_d' is not one of the integral values of `x' and
+      // overflow is impossible, the grid (with the integrality congruence
+      // added above) is unchanged.
     }
     return;
   }
